@@ -986,7 +986,8 @@ func runShard(shard, n int, groups []group, jobs []job) (res shardResult) {
 func (ck *checker) pair(backend, workerDir string, g *group, t tree, ti, pi int, pats []string, key [4]int, st *stats) {
 	defer func() {
 		if p := recover(); p != nil {
-			ck.engineError("panic on backend=%s tree=%s patterns=%q: %v", backend, t, pats, p)
+			// a tree and a pattern list must never bring the caller down
+			ck.record(verdict{core: "panic:mode=" + g.mode, clause: "panic", entry: fmt.Sprint(p)}, caseDesc{Mode: g.mode, Backend: backend, Op: "Walk", Tree: t, Patterns: pats, Note: "some operation of this (tree, pattern list) panicked: " + fmt.Sprint(p)}, key, opResult{})
 		}
 	}()
 	st.pairs++
